@@ -212,6 +212,7 @@ class Evaluator(object):
         self.raise_conds = []               # (function qualname, condition under which an `if ...: raise` fires incl. enclosing ifs, node)
         self._path = []                     # conditions of the enclosing if-branches
         self.call_paths = []                # for every entry of self.calls: the branch conditions under which the call is made
+        self.dead_branches = []             # (function, if statement, value): tests decided by the enclosing conditions in exact arithmetic
         self._path_base = []                # per function frame: length of _path at entry
         self.fold_const_types = False       # type(<numeric constant>) folds to int / float
         self.rat_type_is_float = False      # type(<symbolic number>) folds to float (used where inputs are documented floats)
@@ -621,8 +622,61 @@ class Evaluator(object):
         self.diag('unknown', st, 'statement %s not handled' % type(st).__name__)
         return Outcome(env)
 
+    def _sign_from_path(self, d):
+        """strict sign (+1 / -1) of a form that is a single term c * product(atoms) when the sign of every atom is fixed by an enclosing
+        branch condition (`x < 0`, `0 < x`) or by what it is (pi); None otherwise.  Exact arithmetic."""
+        if not isinstance(d, Rat) or not d.den.is_const() or len(d.num.t) != 1:
+            return None
+        (mono, c), = d.num.t.items()
+        if mono[1]:
+            return None
+        q = c / d.den.const_value()
+        if not q.is_real() or q.re == 0:
+            return None
+        sign = 1 if q.re > 0 else -1
+        known = {}
+        for pc in self._path:
+            a = _single_atom(pc) if isinstance(pc, Rat) else None
+            if a is None or a.kind != 'fn' or a.name not in ('lt', 'gt') or len(a.args) != 2:
+                continue
+            l, r = a.args
+            if not (isinstance(l, Rat) and isinstance(r, Rat)):
+                continue
+            for x, zero, sg in ((l, r, -1 if a.name == 'lt' else 1), (r, l, 1 if a.name == 'lt' else -1)):
+                xa = _single_atom(x)
+                if xa is not None and zero.is_zero():
+                    known[xa.id] = sg
+        for aid, e in mono[0]:
+            at = alg.TABLE.atoms[aid]
+            if at.kind == 'sym' and at.name == 'pi':
+                continue
+            if e % 2 == 0:
+                continue
+            if aid not in known:
+                return None
+            sign *= known[aid]
+        return sign
+
+    def _implied_by_path(self, cond):
+        """an ordering test already decided by the enclosing branch conditions (in exact arithmetic): `t + 360 >= 360` under `t < 0` is
+        False.  Such a test can only fire through floating-point rounding; the exact model drops the dead branch."""
+        a = _single_atom(cond) if isinstance(cond, Rat) else None
+        if a is None or a.kind != 'fn' or a.name not in ('lt', 'le', 'gt', 'ge') or len(a.args) != 2:
+            return None
+        if not (isinstance(a.args[0], Rat) and isinstance(a.args[1], Rat)):
+            return None
+        s = self._sign_from_path(a.args[0] - a.args[1])
+        if s is None:
+            return None
+        return {'lt': s < 0, 'le': s < 0, 'gt': s > 0, 'ge': s > 0}[a.name]
+
     def exec_if(self, st, env, func):
         cond = self.truth(self.eval(st.test, env, func), st)
+        if self._path and not isinstance(cond, Bool):
+            imp = self._implied_by_path(cond)
+            if imp is not None:
+                self.dead_branches.append((self._stack[-1].qualname if self._stack else '?', st, imp))
+                cond = Bool(imp)
         if any(isinstance(b, ast.Raise) for b in st.body):
             full = cond
             for c in reversed(self._path):
